@@ -21,6 +21,14 @@ Fixpoint owes (code : list op) : bool :=
 
 Definition plain (o : op) : bool := match in_rel o with None => true | _ => false end.
 
+(* everything a failed closed-bit test jumps over is plain *)
+Fixpoint plain_to_unlock (k : list op) : bool :=
+  match k with
+  | [] => true
+  | OUnlock :: _ => true
+  | o :: r => plain o && plain_to_unlock r
+  end.
+
 Fixpoint insafe (hi : bool) (code : list op) : bool :=
   match code with
   | [] => negb hi
@@ -31,7 +39,7 @@ Fixpoint insafe (hi : bool) (code : list op) : bool :=
       | OServeRead | OHEmit _ _ => hi
       | OServeTop | OExit _ _ _ => negb hi
       | OCloseInput | OProbe => negb hi && insafe hi k
-      | OChk => forallb plain k && insafe hi k
+      | OChk | OTest => plain_to_unlock k && insafe hi k
       | _ => insafe hi k
       end
   end.
@@ -45,19 +53,15 @@ Proof.
     all: destruct hi; try reflexivity; try discriminate; destruct H; congruence.
 Qed.
 
-Lemma plain_all : forall k hi, forallb plain k = true -> insafe hi k = negb hi /\ owes k = false.
+Lemma skip_plain : forall k hi, plain_to_unlock k = true -> insafe hi k = true ->
+  insafe hi (skip_to_unlock k) = true /\ owes (skip_to_unlock k) = owes k.
 Proof.
-  induction k as [|o k IH]; intros hi H; [split; reflexivity|].
-  cbn [forallb] in H. apply andb_prop in H. destruct H as [Ho Hk].
-  destruct o; cbn in Ho; try discriminate Ho; cbn; try (apply IH; exact Hk).
-  rewrite Hk. cbn. apply IH. exact Hk.
-Qed.
-
-Lemma plain_skip : forall k, forallb plain k = true -> forallb plain (skip_to_unlock k) = true.
-Proof.
-  induction k as [|o k IH]; intro H; [reflexivity|].
-  pose proof H as H0. cbn [forallb] in H. apply andb_prop in H. destruct H as [Ho Hk].
-  destruct o; cbn [skip_to_unlock]; try (apply IH; exact Hk). exact H0.
+  induction k as [|o k IH]; intros hi Hp Hs; [split; [exact Hs|reflexivity]|].
+  destruct o; cbn [plain_to_unlock plain in_rel] in Hp; try discriminate Hp;
+    cbn [skip_to_unlock]; try (split; [exact Hs|reflexivity]);
+    cbn [insafe] in Hs; cbn [owes in_rel];
+    try (apply IH; [exact Hp|exact Hs]).
+  all: rewrite andb_true_iff in Hs; destruct Hs as [_ Hs]; apply IH; [exact Hp|exact Hs].
 Qed.
 
 Definition lk_actor (a : actor) : Prop := insafe (owes (a_code a)) (a_code a) = true.
@@ -88,11 +92,15 @@ Proof.
   all: try match goal with
        | Hc : a_code _ = OChk :: _, Hcl : o_cl _ = true |- _ =>
            rewrite andb_true_iff in Hlk; destruct Hlk as [Hp Hk];
-           destruct (plain_all _ (owes k) (plain_skip k Hp)) as [E1 E2];
-           destruct (plain_all k (owes k) Hp) as [E3 E4];
-           rewrite E2; rewrite E4 in E1;
-           (split; [exact E1|split; [symmetry; exact E4|reflexivity]])
+           destruct (skip_plain k _ Hp Hk) as [E1 E2];
+           rewrite E2; (split; [exact E1|split; reflexivity])
        | Hc : a_code _ = OChk :: _ |- _ =>
+           rewrite andb_true_iff in Hlk; destruct Hlk as [_ Hk]; (split; [exact Hk|split; reflexivity])
+       | Hc : a_code _ = OTest :: _, Hcl : o_cl _ = true |- _ =>
+           rewrite andb_true_iff in Hlk; destruct Hlk as [Hp Hk];
+           destruct (skip_plain k _ Hp Hk) as [E1 E2];
+           rewrite E2; (split; [exact E1|split; reflexivity])
+       | Hc : a_code _ = OTest :: _ |- _ =>
            rewrite andb_true_iff in Hlk; destruct Hlk as [_ Hk]; (split; [exact Hk|split; reflexivity])
        | Hc : a_code _ = OAcqIn :: _ |- _ =>
            cbn in Hlk; rewrite (insafe_owes k true Hlk); (split; [exact Hlk|repeat split; assumption])
@@ -117,7 +125,7 @@ Definition LK (s : state) : Prop :=
 
 Lemma lk_programs : forall k, insafe false (prog_of k) = true /\ owes (prog_of k) = false.
 Proof.
-  destruct k as [|n|n|n|n|n|past| |evs| |]; try (split; reflexivity).
+  destruct k as [|n|n|n|n|n|past| |evs| | |b]; try (split; reflexivity).
   - destruct past; split; reflexivity.
   - cbn [prog_of]. induction evs as [|e evs IH]; [split; reflexivity|exact IH].
 Qed.
@@ -136,7 +144,7 @@ Qed.
 Theorem LK_step : forall s i s', LK s -> step s i = Some s' -> LK s'.
 Proof.
   intros s i s' (Ha & Hex1 & Hall & Huniq) Hstep.
-  apply step_inv in Hstep. destruct Hstep as (o & k & og & ig & a' & Hcode & Hex & ->).
+  apply step_inv in Hstep. destruct Hstep as (o & k & og & ig & a' & Hcode & Hgate & Hex & ->).
   destruct (lk_exec i o k _ _ _ _ _ _ Hcode (Ha i) Hex) as [Hlk' Hrel].
   assert (Hoth : forall j, j <> i -> upd (s_a s) i a' j = s_a s j) by (intros; apply upd_other; assumption).
   unfold LK. cbn [s_a s_i].
@@ -207,7 +215,7 @@ Definition NS (s : state) : Prop :=
 
 Lemma quiet_programs : forall k, role_of k <> RServe -> quiet_in (prog_of k) = true.
 Proof.
-  destruct k as [|n|n|n|n|n|past| |evs| |]; intro H; try reflexivity.
+  destruct k as [|n|n|n|n|n|past| |evs| | |b]; intro H; try reflexivity.
   - destruct past; reflexivity.
   - clear H. cbn [prog_of]. induction evs as [|e evs IH]; [reflexivity|exact IH].
   - exfalso. apply H. reflexivity.
@@ -221,7 +229,7 @@ Qed.
 Theorem NS_step : forall s i s', NS s -> step s i = Some s' -> NS s'.
 Proof.
   intros s i s' Hns Hstep.
-  apply step_inv in Hstep. destruct Hstep as (o & k & og & ig & a' & Hcode & Hex & ->).
+  apply step_inv in Hstep. destruct Hstep as (o & k & og & ig & a' & Hcode & Hgate & Hex & ->).
   intros j. cbn [s_a]. destruct (Nat.eq_dec j i) as [->|Hn]; [|rewrite upd_other by exact Hn; apply Hns].
   rewrite upd_same. intro Hrole. rewrite (exec_role _ _ _ _ _ _ _ _ _ Hex) in Hrole.
   pose proof (Hns i Hrole) as Hq. rewrite Hcode in Hq.
@@ -233,7 +241,7 @@ Proof.
     injection Hex as <- <- <-;
     try match goal with |- context [first_err] => unfold first_err; destruct (a_e (set_code (s_a s i) k)) end;
     cbn [a_code set_code set_e set_chk set_res]; try exact Hk.
-  apply quiet_in_skip. exact Hk.
+  all: apply quiet_in_skip; exact Hk.
 Qed.
 
 Theorem NS_run : forall ds ks tr s, run step (init ds ks) tr = Some s -> NS s.
